@@ -37,3 +37,10 @@ def l4_fixture(message, visited=None):
             continue
         out += l4_fixture(f.type, visited=visited)
     return out
+
+
+def l5_fixture(services, mixin_methods):
+    has_overrides = False
+    for service in services.values():
+        has_overrides = not mixin_methods.keys().isdisjoint(service.methods)
+    return has_overrides
